@@ -9,8 +9,11 @@ import time
 import traceback
 
 ROOT = os.path.dirname(os.path.dirname(os.path.abspath(__file__)))
-EVIDENCE_DIR = os.path.join(ROOT, "evidence")
-REPLAY_DIR = os.path.join(ROOT, "replays")
+# runs against a scratch copy of the repository (seeded changes) must not overwrite the evidence of /repo
+_SCRATCH = os.environ.get("VERIF_SCRATCH_EVIDENCE")
+_OUT = ROOT if not _SCRATCH else os.path.join("/var/tmp/verif_scratch", str(os.getpid()) if _SCRATCH == "pid" else "shared")
+EVIDENCE_DIR = os.path.join(_OUT, "evidence")
+REPLAY_DIR = os.path.join(_OUT, "replays")
 FINDINGS_FILE = os.path.join(ROOT, "known_findings.json")
 NPROC = int(os.environ.get("VERIF_NPROC", "16"))
 MAX_SAMPLES_PER_SUB = 3
